@@ -51,7 +51,8 @@ SubmitEffect ==
    /\ UNCHANGED <<t, l, sub, dn, closed, cls>>
 SubmitRet == /\ More /\ Ev.e = "SubmitRet" /\ sub = Ev.j /\ subres = Ev.r
              /\ sub' = 0 /\ subres' = "none" /\ Adv /\ UNCHANGED <<ws, js, jw, dn, closed, cls>>
-JobStart == /\ More /\ Ev.e = "JobStart" /\ js[Ev.j] = "assigned" /\ jw[Ev.j] = Ev.w
+\* once close() has returned no further job starts ("closing the pool starts no further job")
+JobStart == /\ More /\ Ev.e = "JobStart" /\ js[Ev.j] = "assigned" /\ jw[Ev.j] = Ev.w /\ cls # "done"
             /\ js' = [js EXCEPT ![Ev.j] = "started"] /\ Adv /\ UNCHANGED <<ws, jw, sub, subres, dn, closed, cls>>
 JobEnd == /\ More /\ Ev.e = "JobEnd" /\ js[Ev.j] = "started" /\ jw[Ev.j] = Ev.w
           /\ js' = [js EXCEPT ![Ev.j] = "ended"] /\ ws' = [ws EXCEPT ![Ev.w] = "fin"] /\ Adv
